@@ -57,6 +57,38 @@ theorem uinv_step (s s' : State) (sp : SpecSt) (a : Act) (h : UInv s sp) (hg : g
     · split at hs
       · cases hs
       · simp only [Option.some.injEq] at hs; subst hs; exact uinv_same h rfl rfl
+  | replayOne rot =>
+    simp only [step] at hs
+    split at hs
+    · cases hs
+    · split at hs
+      · cases hs
+      · split at hs
+        · cases hs
+        · rename_i s1 h1
+          simp only [Option.some.injEq] at hs
+          subst hs
+          have fr := writeStep_frame h1
+          exact uinv_same h fr.done fr.ckpts
+  | openBegin id' =>
+    intro id hid hl
+    simp only [stepSpec, List.mem_filter, List.mem_append, decide_eq_true_eq] at hid hl
+    have heq : id = id' := by
+      rcases Nat.lt_or_eq_of_le hid.2 with hlt | heq
+      · exact absurd ⟨Or.inr ⟨hid.1, hlt⟩, hid.2⟩ hl
+      · exact heq
+    subst heq
+    simp only [step] at hs
+    split at hs
+    · cases hs
+    · rename_i c hc
+      obtain ⟨hcid, _, _, _⟩ := loadCkpt_some hc
+      split at hs
+      · cases hs
+      · simp only [Option.some.injEq] at hs
+        subst hs
+        apply (rd_iff _ id).mpr
+        exact ⟨by simp [restoreBase, hcid], c, by simp [restoreBase], hcid⟩
   | saveList =>
     simp only [step] at hs
     split at hs
@@ -201,6 +233,8 @@ theorem open_of_retained (s : State) (sp : SpecSt) (h : SInv s sp) (id : Nat) (r
     have hstep : step s (.open id rots) = some r := by simp only [step, hload, restore, hw]; exact hrr
     have hS := sinv_step s r sp (.open id rots) h (by simpa [guardOk] using hr) hstep
     obtain ⟨mL, hL, _, hA⟩ := hS.lsm
+    have hrep : r.replaying = [] := by rw [replay_replaying _ _ _ _ hrr]; rfl
+    rw [hrep] at hA
     exact ⟨r, hstep, fun k => by rw [get_eq_spec hL k]; exact hA k⟩
 
 end Rxn.Ckpt
